@@ -14,12 +14,12 @@
   the event that precedes it (one task runs at a time between scheduling points, and all of that
   code is under the mutex).
 
-  Deciding expressions and the order of operations come from GIV.Gen.Par (regenerated from source).
+  Deciding expressions and the order of operations come from GIV.Gen.ParWork (regenerated from source).
   Core Lean only.
 -/
-import GIV.Gen.Par
+import GIV.Gen.ParWork
 namespace GIV.ParWork
-open GIV.Gen.Par
+open GIV.Gen.ParWork
 
 abbrev Item := Nat
 abbrev TaskId := Nat
